@@ -19,7 +19,7 @@ COQ_TARGETS = COQ_TARGETS + [t for t in iotie.COQ_TARGETS if t not in COQ_TARGET
 THEOREMS = ["C18_items", "C18_values", "C18_full_repaired", "C18_once", "C18_nondestructive",
             "C18_strategy_per_class", "C18_pinned_peek_nonempty", "C18_refuted_namedtuple",
             "C18_refuted_empty_iter", "C18_refuted_signature_fields", "C18_refuted_private_slots",
-            "C18_full_pinned_false"]
+            "C18_inherited_slots_reading", "C18_full_pinned_false"]
 EXN = {"EStopIter", "EAttribute", "EType", "EValue"}
 HDR = ("From Coq Require Import List ZArith NArith String Ascii Bool.\nImport ListNotations.\n"
        "Require Import TL.Model.Iter TL.Model.IterEq.\n")
@@ -74,6 +74,18 @@ def representatives():
     for k in O.ITERS:
         l = [{"t": "coll", "k": "KTuple", "l": [i1, i2]}] if k == "IZipObj" else [i1, i2]
         reps.append({"t": "iter", "k": k, "consumed": 0, "l": l})
+    # round 3: a representative of every DERIVED shape (the predicates must not depend on how the class came about)
+    rng = random.Random(18)
+    for style in ("typing", "collections"):
+        for kind in O.D.NAMED_KINDS[1:]:
+            reps.append({"t": "named", "style": style, "fields": ["a", "b"], "l": [i1, i2], "derive": kind})
+    for fl, sl, kind in O.D.all_obj_kinds():
+        if kind != "direct" or (fl == "annotated" and sl):
+            reps.append(O.g_shape(rng, fl, sl, kind, [{"n": "a", "cv": False}, {"n": "b", "cv": False}], [i1, i2],
+                                  init="matching"))
+    for kind in O.D.TD_KINDS:
+        reps.append({"t": "dict", "k": "MDict", "td": {"kind": kind, "k": 1}, "l": [[{"t": "str", "v": "a"}, i1],
+                                                                                   [{"t": "str", "v": "b"}, i2]]})
     return reps
 
 
@@ -196,7 +208,7 @@ def fixed_cases():
         if t == "iter":
             base["consumed"] = 0
         out.append(base)
-    return out
+    return out + O.catalogue()         # round 3: every derivation kind x member shape x pair-like first field
 
 
 def correspond(run: lib.Run):
@@ -303,6 +315,11 @@ def required(d):
     if t == "obj":
         cd = d["cls"]
         cv = {m["n"] for m in cd["members"] if m["cv"]}
+        if cd["flavour"] == "dataclass" and O.D.kind_of(cd) != "dc-sub-plain-ann":
+            # round 3: a ClassVar pseudo-field of a DATACLASS is by dataclasses' own definition not a field
+            # (dataclasses.fields omits it), so it must not be yielded: judged.  Still not judged: ClassVar annotations
+            # of plain annotated classes, and annotations an UNdecorated subclass adds to a dataclass (dc-sub-plain-ann).
+            cv = set()
         vals = dict((n, v) for n, v in d["vals"])
         extra = [(n, v) for n, v in d.get("extra", [])]
         fl = cd["flavour"]
@@ -386,23 +403,62 @@ def shrink(desc, symptom, func):
             if cur["t"] == "iter" and cur["consumed"]:
                 cands.append(dict(copy.deepcopy(cur), consumed=0))
         if cur["t"] == "obj":
+            if cur["cls"].get("derive"):                      # is the derivation essential?
+                c = copy.deepcopy(cur)
+                del c["cls"]["derive"]
+                cands.append(c)
+            for flag in ("init_ann", "slots_str"):
+                if cur["cls"].get(flag):
+                    c = copy.deepcopy(cur)
+                    del c["cls"][flag]
+                    cands.append(c)
             for i in reversed(range(len(cur["cls"]["members"]))):
                 c = copy.deepcopy(cur)
                 m = c["cls"]["members"].pop(i)
                 c["vals"] = [v for v in c["vals"] if v[0] != m["n"]]
                 if c["cls"]["flavour"] == "annotated" and not c["cls"]["members"]:
                     continue
+                der = c["cls"].get("derive")
+                if der:
+                    if der.get("j") is not None:
+                        if der["j"] == i:
+                            continue
+                        der["j"] -= der["j"] > i
+                    if der.get("k") is not None:
+                        der["k"] -= der["k"] > i
                 cands.append(c)
             if cur.get("extra"):
                 cands.append(dict(copy.deepcopy(cur), extra=[]))
+            for i, (n, v) in enumerate(cur["vals"]):          # field values: a scalar where any value will do
+                if v != {"t": "int", "v": 0}:
+                    c = copy.deepcopy(cur)
+                    c["vals"][i][1] = {"t": "int", "v": 0}
+                    cands.append(c)
+        if cur["t"] in ("coll", "iter") and len(cur["l"]) == 1 and cur["l"][0]["t"] in ("named", "obj"):
+            e = cur["l"][0]                                   # shrink the only element in place
+            if e.get("derive") or (e["t"] == "obj" and e["cls"].get("derive")):
+                c = copy.deepcopy(cur)
+                if e["t"] == "named":
+                    del c["l"][0]["derive"]
+                else:
+                    del c["l"][0]["cls"]["derive"]
+                cands.append(c)
+        if cur["t"] == "dict" and cur.get("td"):
+            c = copy.deepcopy(cur)
+            del c["td"]
+            cands.append(c)
         if cur["t"] == "named":
+            if (cur.get("derive") or "direct") != "direct":
+                c = copy.deepcopy(cur)
+                del c["derive"]
+                cands.append(c)
             for i in reversed(range(1, len(cur["l"]))):
                 c = copy.deepcopy(cur)
                 del c["l"][i]
                 del c["fields"][i]
                 cands.append(c)
         for c in cands:
-            if O.size(c) <= O.size(cur) and c != cur and still(c):
+            if O.weight(c) < O.weight(cur) and still(c):
                 cur, changed = c, True
                 break
     return cur
